@@ -528,3 +528,40 @@ func (i *interpreter) deepEqual(x, y value, depth int) *Term {
 
 var _ = strings.HasPrefix
 var _ = os.Getenv
+
+// Environment abstractions of helm functions whose only job is to read the
+// build/cluster environment through reflection-heavy registries. They are
+// listed in every evidence file that used them.
+func init() {
+	intrinsics["helm.sh/helm/v4/pkg/chart/v2/util.allKnownVersions"] = func(fr *frame, args []value) value {
+		// the real function enumerates client-go's scheme; the engine supplies a
+		// fixed, representative set (capabilities are data for templates only)
+		return []value{"v1", "apps/v1", "batch/v1", "apiextensions.k8s.io/v1", "apiextensions.k8s.io/v1beta1"}
+	}
+}
+
+func init() {
+	intrinsics["runtime.Version"] = func(fr *frame, args []value) value { return "go1.24.0" }
+	intrinsics["flag.Lookup"] = func(fr *frame, args []value) value {
+		// native replays run under `go test`, where test.* flags exist
+		t := fr.fn.Signature.Results().At(0).Type()
+		var cell value = zero(mustDeref(t))
+		return &cell
+	}
+	intrinsics["syscall.runtime_envs"] = func(fr *frame, args []value) value { return []value(nil) }
+	intrinsics["os.runtime_args"] = func(fr *frame, args []value) value { return []value{"gosym"} }
+	intrinsics["os.NewFile"] = func(fr *frame, args []value) value {
+		t := fr.fn.Signature.Results().At(0).Type()
+		var cell value = zero(mustDeref(t))
+		return &cell
+	}
+}
+
+func init() {
+	// every raw system call fails with ENOSYS: the engine has no OS underneath
+	intrinsics["internal/runtime/syscall.Syscall6"] = func(fr *frame, args []value) value {
+		return tuple{uintptr(0), uintptr(0), uintptr(38)}
+	}
+	intrinsics["syscall.runtime_entersyscall"] = func(fr *frame, args []value) value { return nil }
+	intrinsics["syscall.runtime_exitsyscall"] = func(fr *frame, args []value) value { return nil }
+}
